@@ -197,7 +197,7 @@ Json generate(const std::string& tier, uint64_t seed, uint64_t index) {
         else if (pk < 62) { static const char* k[] = {"ENOENT", "EACCES", "EMFILE"}; faults.push(fault("open", 0, rng.pick(k))); }
         else if (pk < 70) faults.push(fault("fstat", 0, "EIO"));
         else if (pk < 80) faults.push(fault("read", (int)rng.below(3), "EIO"));
-        else if (pk < 92) faults.push(fault("mmap", 0, "ENOMEM"));
+        else if (pk < 97) faults.push(fault("mmap", 0, "ENOMEM"));   // close faults stay rare: mp reports them on stderr
         else faults.push(fault("close", 0, "EIO"));
       }
     }
